@@ -256,14 +256,40 @@ func FuzzBuildTrace(f *testing.F) {
 	}))
 }
 
+// FuzzReuse: three successive decode-type uses (entry point chosen per use by the knob, an
+// Encode() from the current fields optionally in between) of one Message, each from fuzzer
+// bytes with the cookie forced; C08's fresh-twin oracle after every use. (A rapid.MakeFuzz
+// version of the whole C08 generator was tried first: in 60 s from an empty corpus it did
+// not reach the size relations seeded changes C08b/C08c need; this byte-level one does.)
 func FuzzReuse(f *testing.F) {
+	for i := 0; i < 16; i++ {
+		w := func(k, budget int) []byte {
+			return rapid.Custom(func(t *rapid.T) []byte { return gen.WireMsg(t, 6, budget, false).Bytes() }).Example(k)
+		}
+		f.Add(w(i, 400), w(i+100, 60), w(i+200, 200), uint16(i*37))
+		f.Add(w(i, 60), w(i+100, 400), w(i+200, 20), uint16(i*101+7))
+	}
+	r, _ := hex.DecodeString(rfc5769Request)
+	f.Add(r, r[:20], r, uint16(0))
 	rec := evid.For("C08")
-	f.Fuzz(rapid.MakeFuzz(func(rt *rapid.T) {
-		c := c08Case{Poison: rapid.SampledFrom([]byte{0xA5, 0xFF, 0x01, 0x80}).Draw(rt, "poison")}
-		c.Uses = rapid.SliceOfN(rapid.Custom(genUse), 2, 8).Draw(rt, "uses")
+	kinds := []string{"decode", "write", "unmarshal", "gobdecode", "readfrom", "cloneto"}
+	f.Fuzz(func(t *testing.T, d1, d2, d3 []byte, knob uint16) {
+		if len(d1) > 4000 || len(d2) > 4000 || len(d3) > 4000 {
+			return
+		}
+		c := c08Case{Poison: []byte{0xA5, 0xFF, 0x01, 0x80}[knob>>14]}
+		k := int(knob)
+		for i, d := range [][]byte{d1, d2, d3} {
+			c.Uses = append(c.Uses, use{Kind: kinds[k%6], Wire: fuzzInput(d, 0).Input})
+			k /= 6
+			if i < 2 && k%5 == 0 {
+				c.Uses = append(c.Uses, use{Kind: "encode"})
+			}
+			k /= 5
+		}
 		if _, err := runC08(c); err != nil {
 			rec.Violation("history", c, err.Error())
-			rt.Fatalf("C08: %v", err)
+			t.Fatalf("C08: %v", err)
 		}
-	}))
+	})
 }
